@@ -602,6 +602,23 @@ structure EnvelopeSafe (co : Str → Str) (a : Accepted) : Prop where
 def StepOK : Step → Prop
   | .restart => True
   | .attempt _ next _ => ∀ to r, r ∈ next to → r ∈ to
+  | .panicked _ _ => True
+
+/-- the downstream target does not panic in this step -/
+def NoPanic : Step → Prop
+  | .panicked _ _ => False
+  | _ => True
+
+/-- what a target that panicked inside an attempt had been handed until then is the accepted
+message too: sender, options, original-recipient mapping, and - if the body stage was reached -
+the accepted header and body -/
+structure PanOK (a : Accepted) (s : Seen) : Prop where
+  sender : s.sender = a.qmeta.sender
+  utf8 : s.utf8 = a.qmeta.msgMeta.utf8
+  requireTLS : s.requireTLS = a.qmeta.msgMeta.requireTLS
+  tro : s.tlsRequireOverride = a.qmeta.msgMeta.tlsRequireOverride
+  orc : s.originalRcpts = a.qmeta.msgMeta.originalRcpts
+  content : s.content = none ∨ s.content = some (a.hdr, a.body)
 
 /-- metadata `m` carries the accepted envelope with pending list `to` -/
 structure Agrees (a : Accepted) (to : List Str) (m : QMeta) : Prop where
@@ -646,6 +663,11 @@ theorem seens_append (x y : List Ev) : seens (x ++ y) = seens x ++ seens y := by
   induction x with
   | nil => rfl
   | cons e x ih => cases e <;> simp [seens, ih]
+
+theorem panSeens_append (x y : List Ev) : panSeens (x ++ y) = panSeens x ++ panSeens y := by
+  induction x with
+  | nil => rfl
+  | cons e x ih => cases e <;> simp [panSeens, ih]
 
 theorem docs_append (x y : List Ev) : docs (x ++ y) = docs x ++ docs y := by
   induction x with
@@ -718,6 +740,32 @@ theorem seenOf_agrees {a : Accepted} {to : List Str} {m : QMeta} (hm : Agrees a 
         content := if b then some (a.hdr, a.body) else none } := by
   simp [seenOf, hm.sender, hm.to, hm.utf8, hm.requireTLS, hm.tro, hm.orc]
 
+theorem panSeens_emitDSN (m : QMeta) (h : Header) (dsn : Option Dsn) : panSeens (emitDSN m h dsn) = [] := by
+  cases dsn with
+  | none => simp [emitDSN, panSeens]
+  | some c =>
+    simp only [emitDSN]
+    split
+    · simp [panSeens]
+    · split
+      · simp [panSeens]
+      · split <;> simp [panSeens]
+
+theorem panSeens_attempt (vis : Vis) (co : Str → Str) (d : Disk) (m : QMeta) (h : Header)
+    (acc : List Str → Bool) (next : List Str → List Str) (dsn : Option Dsn) :
+    panSeens (attempt vis co d m h acc next dsn).2 = [] := by
+  unfold attempt
+  by_cases hne : next m.to = []
+  · simp [hne, panSeens, panSeens_append, panSeens_emitDSN]
+  · simp [hne, panSeens, panSeens_append, panSeens_emitDSN]
+
+theorem seenUpTo_panOK {a : Accepted} {to : List Str} {m : QMeta} (hm : Agrees a to m)
+    (stage : Stage) (b : Bool) : PanOK a (seenUpTo m a.hdr a.body stage b) := by
+  cases stage <;> cases b <;>
+    exact ⟨by simp [seenUpTo, seenOf, hm.sender], by simp [seenUpTo, seenOf, hm.utf8],
+      by simp [seenUpTo, seenOf, hm.requireTLS], by simp [seenUpTo, seenOf, hm.tro],
+      by simp [seenUpTo, seenOf, hm.orc], by simp [seenUpTo, seenOf]⟩
+
 /-- what one attempt from an invariant state does -/
 theorem attempt_spec {vis : Vis} {co : Str → Str} {a : Accepted} (hv : VisOK vis)
     (hs : EnvelopeSafe co a) {to : List Str} (hsafe : ∀ r ∈ to, co r = r)
@@ -754,12 +802,13 @@ theorem runFrom_spec {vis : Vis} {co : Str → Str} {a : Accepted} (hv : VisOK v
     ∀ (to : List Str) (s : St), (∀ r ∈ to, co r = r) → Inv a to s →
       seens (runFrom vis co s steps).2 = spec a to (attemptsOf steps) ∧
       (∀ d, (runFrom vis co s steps).1.disk = some d →
-        d.hdrFile = writeHeader a.hdr ∧ d.bodyFile = a.body ∧ d.metaFile.msgMeta.conn = none) := by
+        d.hdrFile = writeHeader a.hdr ∧ d.bodyFile = a.body ∧ d.metaFile.msgMeta.conn = none) ∧
+      (∀ ps ∈ panSeens (runFrom vis co s steps).2, PanOK a ps) := by
   induction steps with
   | nil =>
     intro to s _ hi
     obtain ⟨d, hd, h1, h2, _, h4⟩ := hi.disk
-    refine ⟨by simp [runFrom, seens, attemptsOf, spec], ?_⟩
+    refine ⟨by simp [runFrom, seens, attemptsOf, spec], ?_, by simp [runFrom, panSeens]⟩
     intro d' hd'
     simp [runFrom, hd] at hd'
     subst hd'
@@ -777,6 +826,27 @@ theorem runFrom_spec {vis : Vis} {co : Str → Str} {a : Accepted} (hv : VisOK v
       have := ih hrest to _ hsafe hi'
       simp only [runFrom, hstep, attemptsOf]
       simpa using this
+    | panicked stage acc =>
+      have key : ∃ m, Agrees a to m ∧ step vis co s (.panicked stage acc) = panicAttempt d m a.hdr stage acc := by
+        cases hslot : s.slot with
+        | some mh =>
+          obtain ⟨m, h⟩ := mh
+          obtain ⟨hm, hh⟩ := hi.slot m h hslot
+          exact ⟨m, hm, by simp [step, hd, hi.sched, hslot, hh]⟩
+        | none =>
+          refine ⟨d.metaFile, hag, ?_⟩
+          simp [step, hd, hi.sched, hslot, h1, C10_header_roundtrip a.hdr hwf]
+      obtain ⟨m, hm, hstep⟩ := key
+      have hg := runFrom_gone vis co rest (panicAttempt d m a.hdr stage acc).1 rfl
+      simp only [runFrom, hstep, attemptsOf, spec, seens_append, panSeens_append, hg.1, hg.2]
+      refine ⟨by simp [panicAttempt, seens], ?_, ?_⟩
+      · intro d' hd'
+        cases hd'
+      · intro ps hps
+        simp [panicAttempt, panSeens] at hps
+        subst hps
+        rw [h2]
+        exact seenUpTo_panOK hm stage _
     | attempt acc next dsn =>
       have hok : ∀ r, r ∈ next to → r ∈ to := by
         have := hsteps (.attempt acc next dsn) (by simp)
@@ -793,10 +863,11 @@ theorem runFrom_spec {vis : Vis} {co : Str → Str} {a : Accepted} (hv : VisOK v
           simp [step, hd, hi.sched, hslot, h1, C10_header_roundtrip a.hdr hwf]
       obtain ⟨m, hm, hstep⟩ := key
       obtain ⟨hseen, hgone, hinv⟩ := attempt_spec hv hs hsafe h1 h2 hm acc next dsn hok
-      simp only [runFrom, hstep, attemptsOf, spec, seens_append, hseen]
+      have hpan := panSeens_attempt vis co d m a.hdr acc next dsn
+      simp only [runFrom, hstep, attemptsOf, spec, seens_append, hseen, panSeens_append, hpan]
       by_cases hne : next to = []
       · have hg := runFrom_gone vis co rest _ (hgone hne)
-        simp [hne, hg.1, seens, hg.2]
+        simp [hne, hg.1, seens, hg.2, panSeens]
       · have hsafe' : ∀ r ∈ next to, co r = r := fun r hr => hsafe r (hok r hr)
         have := ih hrest (next to) _ hsafe' (hinv hne)
         simp [hne, this.1]
@@ -843,7 +914,7 @@ theorem C10_spool_content (co : Str → Str) (a : Accepted) (hwf : ∀ f ∈ a.h
     ∀ d, (run genVis co a steps).1.disk = some d →
       d.hdrFile = writeHeader a.hdr ∧ d.bodyFile = a.body ∧ d.metaFile.msgMeta.conn = none := by
   have := (runFrom_spec visOK_generated hwf hs steps hsteps a.qmeta.to _ hs.to
-    (accept_inv visOK_generated hs)).2
+    (accept_inv visOK_generated hs)).2.1
   intro d hd
   exact this d (by simpa [run] using hd)
 
@@ -851,7 +922,7 @@ theorem C10_spool_content (co : Str → Str) (a : Accepted) (hwf : ∀ f ∈ a.h
 and the pending list in its metadata (invariant carried to the END of any history). -/
 theorem runFrom_pending {vis : Vis} {co : Str → Str} {a : Accepted} (hv : VisOK vis)
     (hwf : ∀ f ∈ a.hdr, WFField f) (hs : EnvelopeSafe co a) (steps : List Step)
-    (hsteps : ∀ st ∈ steps, StepOK st) :
+    (hsteps : ∀ st ∈ steps, StepOK st) (hnp : ∀ st ∈ steps, NoPanic st) :
     ∀ (to : List Str) (s : St), (∀ r ∈ to, co r = r) → Inv a to s →
       pendingAfter to (attemptsOf steps) ≠ [] →
       Inv a (pendingAfter to (attemptsOf steps)) (runFrom vis co s steps).1 := by
@@ -862,15 +933,17 @@ theorem runFrom_pending {vis : Vis} {co : Str → Str} {a : Accepted} (hv : VisO
   | cons st rest ih =>
     intro to s hsafe hi hp
     have hrest : ∀ st ∈ rest, StepOK st := fun x hx => hsteps x (by simp [hx])
+    have hnprest : ∀ st ∈ rest, NoPanic st := fun x hx => hnp x (by simp [hx])
     obtain ⟨d, hd, h1, h2, hag, h4⟩ := hi.disk
     cases st with
+    | panicked stage acc => exact absurd (hnp (.panicked stage acc) (by simp)) (by simp [NoPanic])
     | restart =>
       have hstep : step vis co s .restart = ({ s with slot := none, scheduled := true }, []) := by
         simp [step, hd]
       have hi' : Inv a to { s with slot := none, scheduled := true } :=
         ⟨rfl, ⟨d, hd, h1, h2, hag, h4⟩, by intro m h hc; simp at hc⟩
       simp only [attemptsOf] at hp ⊢
-      have := ih hrest to _ hsafe hi' hp
+      have := ih hrest hnprest to _ hsafe hi' hp
       simpa [runFrom, hstep] using this
     | attempt acc next dsn =>
       have hok : ∀ r, r ∈ next to → r ∈ to := by
@@ -892,7 +965,7 @@ theorem runFrom_pending {vis : Vis} {co : Str → Str} {a : Accepted} (hv : VisO
       · simp [hne] at hp
       · simp only [hne, if_false] at hp ⊢
         have hsafe' : ∀ r ∈ next to, co r = r := fun r hr => hsafe r (hok r hr)
-        have := ih hrest (next to) _ hsafe' (hinv hne) hp
+        have := ih hrest hnprest (next to) _ hsafe' (hinv hne) hp
         simpa [runFrom, hstep] using this
 
 /-- **C10 (a pending message is not dropped).** The other half of "the target is handed the
@@ -906,13 +979,14 @@ somebody is pending): a message leaves the spool only through an attempt that le
 pending. -/
 theorem C10_pending_message_kept (co : Str → Str) (a : Accepted) (hwf : ∀ f ∈ a.hdr, WFField f)
     (hs : EnvelopeSafe co a) (steps : List Step) (hsteps : ∀ st ∈ steps, StepOK st)
+    (hnp : ∀ st ∈ steps, NoPanic st)
     (hp : pendingAfter a.qmeta.to (attemptsOf steps) ≠ []) :
     (run genVis co a steps).1.scheduled = true ∧
     ∃ d, (run genVis co a steps).1.disk = some d ∧
       d.hdrFile = writeHeader a.hdr ∧ d.bodyFile = a.body ∧
       d.metaFile.to = pendingAfter a.qmeta.to (attemptsOf steps) ∧
       d.metaFile.sender = a.qmeta.sender := by
-  have hi := runFrom_pending visOK_generated hwf hs steps hsteps a.qmeta.to _ hs.to
+  have hi := runFrom_pending visOK_generated hwf hs steps hsteps hnp a.qmeta.to _ hs.to
     (accept_inv visOK_generated hs) hp
   have hrun : (run genVis co a steps).1 = (runFrom genVis co (accept genVis co a).1 steps).1 := by
     simp [run]
@@ -923,10 +997,11 @@ theorem C10_pending_message_kept (co : Str → Str) (a : Accepted) (hwf : ∀ f 
 /-- contrapositive: the spool entry is gone only when nobody is pending any more -/
 theorem C10_removed_only_when_done (co : Str → Str) (a : Accepted) (hwf : ∀ f ∈ a.hdr, WFField f)
     (hs : EnvelopeSafe co a) (steps : List Step) (hsteps : ∀ st ∈ steps, StepOK st)
+    (hnp : ∀ st ∈ steps, NoPanic st)
     (hgone : (run genVis co a steps).1.disk = none) :
     pendingAfter a.qmeta.to (attemptsOf steps) = [] := by
   refine Classical.byContradiction fun hp => ?_
-  obtain ⟨_, d, hd, _⟩ := C10_pending_message_kept co a hwf hs steps hsteps hp
+  obtain ⟨_, d, hd, _⟩ := C10_pending_message_kept co a hwf hs steps hsteps hnp hp
   rw [hgone] at hd
   cases hd
 
@@ -992,6 +1067,20 @@ theorem runFrom_reports {vis : Vis} {co : Str → Str} {a : Accepted} (hv : VisO
         ⟨rfl, ⟨d, hd, h1, h2, hag, h4⟩, by intro m h hc; simp at hc⟩
       simp only [runFrom, hstep, List.nil_append] at hr
       exact ih hrest to _ hsafe hi' r hr
+    | panicked stage acc =>
+      have key : ∃ m, step vis co s (.panicked stage acc) = panicAttempt d m a.hdr stage acc := by
+        cases hslot : s.slot with
+        | some mh =>
+          obtain ⟨m, h⟩ := mh
+          obtain ⟨hm, hh⟩ := hi.slot m h hslot
+          exact ⟨m, by simp [step, hd, hi.sched, hslot, hh]⟩
+        | none =>
+          refine ⟨d.metaFile, ?_⟩
+          simp [step, hd, hi.sched, hslot, h1, C10_header_roundtrip a.hdr hwf]
+      obtain ⟨m, hstep⟩ := key
+      have hg := runFrom_gone vis co rest (panicAttempt d m a.hdr stage acc).1 rfl
+      simp only [runFrom, hstep, hg.1, List.append_nil] at hr
+      simp [panicAttempt, reports] at hr
     | attempt acc next dsn =>
       have hok : ∀ r, r ∈ next to → r ∈ to := by
         have := hsteps (.attempt acc next dsn) (by simp)
@@ -1038,6 +1127,7 @@ theorem C10_reports_quote_the_accepted_message (co : Str → Str) (a : Accepted)
 def noBounce : Step → Step
   | .attempt acc next _ => .attempt acc next none
   | .restart => .restart
+  | .panicked stage acc => .panicked stage acc
 
 def notReport : Ev → Bool
   | .report _ => false
@@ -1046,6 +1136,8 @@ def notReport : Ev → Bool
   | .readError => true
   | .wrote _ => true
   | .removed => true
+  | .seenPanicked _ _ => true
+  | .broke _ => true
 
 theorem filter_notReport_emitDSN (m : QMeta) (h : Header) (dsn : Option Dsn) :
     (emitDSN m h dsn).filter notReport = [] := by
@@ -1073,6 +1165,20 @@ theorem step_noBounce (vis : Vis) (co : Str → Str) (s : St) (st : Step) :
     · simp [hne, h0, notReport, List.filter_cons, List.filter_append, filter_notReport_emitDSN]
   cases st with
   | restart => cases hd : s.disk <;> simp [noBounce, step, hd]
+  | panicked stage acc =>
+    cases hd : s.disk with
+    | none => simp [noBounce, step, hd]
+    | some d =>
+      by_cases hsch : s.scheduled = true
+      · cases hslot : s.slot with
+        | some mh =>
+          obtain ⟨m, h⟩ := mh
+          simp [noBounce, step, hd, hsch, hslot, panicAttempt, List.filter_cons, notReport]
+        | none =>
+          cases hr : readHeader d.hdrFile with
+          | error e => simp [noBounce, step, hd, hsch, hslot, hr, List.filter_cons, notReport]
+          | ok h => simp [noBounce, step, hd, hsch, hslot, hr, panicAttempt, List.filter_cons, notReport]
+      · simp [noBounce, step, hd, hsch]
   | attempt acc next dsn =>
     cases hd : s.disk with
     | none => simp [noBounce, step, hd]
@@ -1136,63 +1242,165 @@ theorem C10_two_queues (co : Str → Str) (a : Accepted) (toB : List Str)
     | cons x rest ih => intro to; obtain ⟨acc, next⟩ := x; simp [spec, ih]
   exact hspec _ _
 
-theorem step_docs_no_conn (vis : Vis) (co : Str → Str) (s : St) (st : Step) :
-    ∀ doc ∈ docs (step vis co s st).2, doc.msgMeta.conn = none := by
-  intro doc hdoc
+/-- the live spool entry holds a sanitised record (`Conn = nil`) -/
+def Clean (s : St) : Prop := ∀ d, s.disk = some d → d.metaFile.msgMeta.conn = none
+
+/-- one step from a clean state: every record it writes - the re-written `<id>.meta` and the
+`<id>.meta_broken` a panic of the target leaves behind - has no connection state, and the state
+stays clean -/
+theorem step_docs_no_conn (vis : Vis) (co : Str → Str) (s : St) (st : Step) (hc : Clean s) :
+    Clean (step vis co s st).1 ∧ ∀ doc ∈ docs (step vis co s st).2, doc.msgMeta.conn = none := by
   cases st with
   | restart =>
-    cases hd : s.disk <;> simp [step, hd, docs] at hdoc
-  | attempt acc next dsn =>
-    have hatt : ∀ (d : Disk) (m : QMeta) (h : Header),
-        doc ∈ docs (attempt vis co d m h acc next dsn).2 → doc.msgMeta.conn = none := by
-      intro d m h hmem
-      unfold attempt at hmem
-      by_cases hne : next m.to = []
-      · simp [hne, docs, docs_append, docs_emitDSN] at hmem
-      · simp [hne, docs, docs_append, docs_emitDSN] at hmem
-        subst hmem
-        simp [encodeMeta]
     cases hd : s.disk with
-    | none => simp [step, hd, docs] at hdoc
+    | none => exact ⟨by simpa [step, hd] using hc, by simp [step, hd, docs]⟩
+    | some d =>
+      refine ⟨?_, by simp [step, hd, docs]⟩
+      intro d' hd'
+      simp [step, hd] at hd'
+      exact hc d' (by rw [hd, hd'])
+  | panicked stage acc =>
+    have hpan : ∀ (d : Disk) (m : QMeta) (h : Header), s.disk = some d →
+        Clean (panicAttempt d m h stage acc).1 ∧
+        ∀ doc ∈ docs (panicAttempt d m h stage acc).2, doc.msgMeta.conn = none := by
+      intro d m h hd
+      refine ⟨by intro d' hd'; simp [panicAttempt] at hd', ?_⟩
+      intro doc hmem
+      simp [panicAttempt, docs] at hmem
+      subst hmem
+      exact hc d hd
+    cases hd : s.disk with
+    | none => exact ⟨by simpa [step, hd] using hc, by simp [step, hd, docs]⟩
     | some d =>
       by_cases hsch : s.scheduled = true
       · cases hslot : s.slot with
         | some mh =>
           obtain ⟨m, h⟩ := mh
-          simp [step, hd, hsch, hslot] at hdoc
-          exact hatt d m h hdoc
+          simpa [step, hd, hsch, hslot] using hpan d m h hd
         | none =>
           cases hr : readHeader d.hdrFile with
-          | error e => simp [step, hd, hsch, hslot, hr, docs] at hdoc
-          | ok h =>
-            simp [step, hd, hsch, hslot, hr] at hdoc
-            exact hatt d d.metaFile h hdoc
-      · simp [step, hd, hsch, docs] at hdoc
+          | error e =>
+            refine ⟨?_, by simp [step, hd, hsch, hslot, hr, docs]⟩
+            intro d' hd'
+            simp [step, hd, hsch, hslot, hr] at hd'
+            exact hc d' (by rw [hd, hd'])
+          | ok h => simpa [step, hd, hsch, hslot, hr] using hpan d d.metaFile h hd
+      · exact ⟨by simpa [step, hd, hsch] using hc, by simp [step, hd, hsch, docs]⟩
+  | attempt acc next dsn =>
+    have hatt : ∀ (d : Disk) (m : QMeta) (h : Header),
+        Clean (attempt vis co d m h acc next dsn).1 ∧
+        ∀ doc ∈ docs (attempt vis co d m h acc next dsn).2, doc.msgMeta.conn = none := by
+      intro d m h
+      unfold attempt
+      by_cases hne : next m.to = []
+      · refine ⟨by intro d' hd'; simp [hne] at hd', ?_⟩
+        intro doc hmem
+        simp [hne, docs, docs_append, docs_emitDSN] at hmem
+      · refine ⟨?_, ?_⟩
+        · intro d' hd'
+          simp [hne] at hd'
+          subst hd'
+          simp [encodeMeta]
+        · intro doc hmem
+          simp [hne, docs, docs_append, docs_emitDSN] at hmem
+          subst hmem
+          simp [encodeMeta]
+    cases hd : s.disk with
+    | none => exact ⟨by simpa [step, hd] using hc, by simp [step, hd, docs]⟩
+    | some d =>
+      by_cases hsch : s.scheduled = true
+      · cases hslot : s.slot with
+        | some mh =>
+          obtain ⟨m, h⟩ := mh
+          simpa [step, hd, hsch, hslot] using hatt d m h
+        | none =>
+          cases hr : readHeader d.hdrFile with
+          | error e =>
+            refine ⟨?_, by simp [step, hd, hsch, hslot, hr, docs]⟩
+            intro d' hd'
+            simp [step, hd, hsch, hslot, hr] at hd'
+            exact hc d' (by rw [hd, hd'])
+          | ok h => simpa [step, hd, hsch, hslot, hr] using hatt d d.metaFile h
+      · exact ⟨by simpa [step, hd, hsch] using hc, by simp [step, hd, hsch, docs]⟩
 
-/-- **C10 (no credentials), unconditional.** Every metadata document the queue ever writes - for
-any message (any header, well-formed or not, any envelope, with or without an authenticated
+theorem broke_mem_docs (doc : QMeta) : ∀ evs : List Ev, (∃ e ∈ evs, e = Ev.broke doc ∨ e = Ev.wrote doc) → doc ∈ docs evs := by
+  intro evs
+  induction evs with
+  | nil => intro h; simp at h
+  | cons e rest ih =>
+    intro h
+    obtain ⟨e', hmem, he⟩ := h
+    rcases List.mem_cons.mp hmem with h1 | h1
+    · subst h1
+      rcases he with he | he <;> subst he <;> simp [docs]
+    · have := ih ⟨e', h1, he⟩
+      cases e <;> simp [docs, this]
+
+/-- **C10 (no credentials), unconditional.** Every metadata record the queue ever puts into the
+spool directory - `<id>.meta` at acceptance and after every attempt, and the `<id>.meta_broken`
+that `discardBroken` leaves when the downstream target PANICS in an attempt (the first one, served
+from the in-memory metadata that still carries the session's connection state, or a later one) -
+for any message (any header, well-formed or not, any envelope, with or without an authenticated
 connection), any field visibility, any history - has no connection state, hence carries none of
 the values the client authenticated with. -/
 theorem C10_no_credentials_in_spool (vis : Vis) (co : Str → Str) (a : Accepted) (steps : List Step) :
     ∀ doc ∈ docs (run vis co a steps).2, doc.msgMeta.conn = none ∧ secretsOf doc = [] := by
-  have hrun : ∀ (steps : List Step) (s : St), ∀ doc ∈ docs (runFrom vis co s steps).2,
+  have hrun : ∀ (steps : List Step) (s : St), Clean s → ∀ doc ∈ docs (runFrom vis co s steps).2,
       doc.msgMeta.conn = none := by
     intro steps
     induction steps with
-    | nil => intro s doc h; simp [runFrom, docs] at h
+    | nil => intro s _ doc h; simp [runFrom, docs] at h
     | cons st rest ih =>
-      intro s doc h
+      intro s hc doc h
       simp only [runFrom, docs_append, List.mem_append] at h
+      obtain ⟨hc', hd⟩ := step_docs_no_conn vis co s st hc
       rcases h with h | h
-      · exact step_docs_no_conn vis co s st doc h
-      · exact ih _ doc h
+      · exact hd doc h
+      · exact ih _ hc' doc h
+  have hacc : Clean (accept vis co a).1 := by
+    intro d hd
+    simp [accept] at hd
+    subst hd
+    simp [encodeMeta]
   intro doc hdoc
   simp only [run, docs_append, List.mem_append] at hdoc
   have hc : doc.msgMeta.conn = none := by
     rcases hdoc with h | h
     · simp [accept, docs] at h; subst h; simp [encodeMeta]
-    · exact hrun steps _ doc h
+    · exact hrun steps _ hacc doc h
   exact ⟨hc, by simp [secretsOf, hc]⟩
+
+/-- **C10 (a panic of the target leaves a sanitised record).** Whatever attempt of whatever history
+the downstream target panics in - the first one (in-memory metadata WITH the connection state of
+the authenticated session) included - the record left in `<id>.meta_broken` has no connection
+state. -/
+theorem C10_broken_record_sanitised (vis : Vis) (co : Str → Str) (a : Accepted) (steps : List Step)
+    (doc : QMeta) (h : Ev.broke doc ∈ (run vis co a steps).2) :
+    doc.msgMeta.conn = none ∧ secretsOf doc = [] :=
+  C10_no_credentials_in_spool vis co a steps doc (broke_mem_docs doc _ ⟨_, h, Or.inl rfl⟩)
+
+/-- **C10 (what a panicking target had been handed).** In every attempt of every history in which
+the target panics - at `Start`, in `AddRcpt`, at the body stage or in the final call - what it had
+been handed until then is the accepted sender, SMTPUTF8, REQUIRETLS, TLS-Required override and
+original-recipient mapping and, once the body stage is reached, the accepted header and body. -/
+theorem C10_panicked_attempt_was_handed_the_accepted_message (co : Str → Str) (a : Accepted)
+    (hwf : ∀ f ∈ a.hdr, WFField f) (hs : EnvelopeSafe co a) (steps : List Step)
+    (hsteps : ∀ st ∈ steps, StepOK st) :
+    ∀ ps ∈ panSeens (run genVis co a steps).2, PanOK a ps := by
+  have := (runFrom_spec visOK_generated hwf hs steps hsteps a.qmeta.to _ hs.to
+    (accept_inv visOK_generated hs)).2.2
+  intro ps hps
+  simp only [run, panSeens_append, List.mem_append] at hps
+  rcases hps with h | h
+  · simp [accept, panSeens] at h
+  · exact this ps h
+
+/-- after a panic of the target the queue does nothing more with the message: no later step of the
+history shows the target anything or writes anything -/
+theorem C10_nothing_after_a_panic (vis : Vis) (co : Str → Str) (d : Disk) (m : QMeta) (h : Header)
+    (stage : Stage) (acc : List Str → Bool) (steps : List Step) :
+    (runFrom vis co (panicAttempt d m h stage acc).1 steps).2 = [] :=
+  (runFrom_gone vis co steps _ rfl).1
 
 
 /-! ## non-vacuity -/
@@ -1257,6 +1465,34 @@ without content, and ends with the message removed -/
 example : (seens (run (fun _ => true) exCo exAccepted exSteps).2).map (fun s => (s.to, s.content.isSome)) =
     [([3, 4, 5], true), ([3, 5], false), ([3], true)] := by decide
 example : (run (fun _ => true) exCo exAccepted exSteps).1.disk.isNone = true := by decide
+
+example : ∀ st ∈ exSteps, NoPanic st := by
+  intro st hst
+  simp [exSteps] at hst
+  rcases hst with rfl | rfl | rfl | rfl <;> trivial
+
+/-- the panic transition is not vacuous: the target panics at the body stage of the FIRST attempt
+(in-memory metadata with the connection state of the authenticated session: `connPresent`), resp. in
+its first `AddRcpt` of the second attempt after a restart; the record left in `<id>.meta_broken` has
+no connection state and lists the recipients pending before the attempt; nothing happens afterwards -/
+def exStepsP1 : List Step :=
+  [.panicked .body (fun _ => true), .restart, .attempt (fun _ => true) (fun _ => []) none]
+def exStepsP2 : List Step :=
+  [.attempt (fun _ => true) (fun to => to.filter (· != 4)) none, .restart, .panicked .rcpt (fun _ => true),
+   .attempt (fun _ => true) (fun _ => []) none]
+example : ((run (fun _ => true) exCo exAccepted exStepsP1).2.filterMap fun e =>
+    match e with
+    | .broke d => some (d.msgMeta.conn.isSome, d.to, false)
+    | .seenPanicked s c => some (c, s.to, s.content.isSome)
+    | .seen s c => some (c, s.to, s.content.isSome)
+    | _ => none) = [(true, [3, 4, 5], true), (false, [3, 4, 5], false)] := by decide
+example : ((run (fun _ => true) exCo exAccepted exStepsP2).2.filterMap fun e =>
+    match e with
+    | .broke d => some (d.msgMeta.conn.isSome, d.to, false)
+    | .seenPanicked s c => some (c, s.to, s.content.isSome)
+    | .seen s c => some (c, s.to, s.content.isSome)
+    | _ => none) = [(true, [3, 4, 5], true), (false, [3], false), (false, [3, 5], false)] := by decide
+example : (run (fun _ => true) exCo exAccepted exStepsP1).1.disk.isNone = true := by decide
 
 /-- `C10_pending_message_kept` is not vacuous: after a restart BEFORE the first attempt, the first
 attempt, two restarts and the second attempt of the example, recipient 3 is pending - and the model
